@@ -150,16 +150,23 @@ dispatch_walltime(const struct timespec *inval, int64_t delta)
 {
 	int64_t nsec;
 	if (inval) {
-		nsec = (int64_t)_dispatch_timespec_to_nano(*inval);
+		if (os_mul_overflow((int64_t)inval->tv_sec, (int64_t)NSEC_PER_SEC,
+				&nsec) || os_add_overflow(nsec, (int64_t)inval->tv_nsec, &nsec)) {
+			return inval->tv_sec >= 0 ? DISPATCH_TIME_FOREVER :
+					(dispatch_time_t)-2ll;
+		}
 	} else {
 		nsec = (int64_t)_dispatch_get_nanoseconds();
 	}
-	nsec += delta;
-	if (nsec <= 1) {
-		// -1 is special == DISPATCH_TIME_FOREVER == forever
+	if (os_add_overflow(nsec, delta, &nsec)) {
 		return delta >= 0 ? DISPATCH_TIME_FOREVER : (dispatch_time_t)-2ll;
 	}
-	return (dispatch_time_t)-nsec;
+	if (nsec <= 1) {
+		// -1 is special == DISPATCH_TIME_FOREVER == forever
+		return (dispatch_time_t)-2ll;
+	}
+	// values beyond DISPATCH_TIME_MAX_VALUE would alias another clock
+	return _dispatch_clock_and_value_to_time(DISPATCH_CLOCK_WALL, (uint64_t)nsec);
 }
 
 uint64_t
